@@ -4,7 +4,7 @@ package main
 // of the GPOS subtable readers of lookup types 1-3 (readGpos1_1, 1_2, 2_1, 2_2, 3_1 through
 // readGposSubtable), of anchor.Read and of markarray.Read.
 //
-//   tmgpossub.read      bytes=<hex> pos=<n> type=<t>   gtab.VerifReadGposSubtable(bytes, pos, t)
+//   tmgpossub.read      bytes=<hex> pos=<n> type=<t>   gtab.VerifReadGposSubtable(bytes, pos, t)  (t = 1, 2, 3, 5)
 //   tmgpossub.anchor    bytes=<hex> pos=<n>            anchor.Read(parser, pos)
 //   tmgpossub.markarray bytes=<hex> pos=<n> num=<int>  markarray.Read(parser, pos, num)
 //
@@ -173,6 +173,25 @@ func totalGpossubShowSub(st gtab.Subtable) string {
 		}
 		return "2.2 cov=" + totalGpossubShowSet(l.Cov) + ";cd1=" + totalGpossubShowClassDef(l.Class1) +
 			";cd2=" + totalGpossubShowClassDef(l.Class2) + ";n=" + strconv.Itoa(len(l.Adjust)) + ";adj=" + strings.Join(rows, "/")
+	case *gtab.Gpos5_1:
+		ms := make([]string, len(l.MarkArray))
+		for i, m := range l.MarkArray {
+			ms[i] = strconv.Itoa(int(m.Class)) + "." + totalGpossubShowAnchor(m.Table)
+		}
+		ligs := make([]string, len(l.LigArray))
+		for i, lig := range l.LigArray {
+			comps := make([]string, len(lig))
+			for j, row := range lig {
+				as := make([]string, len(row))
+				for k, a := range row {
+					as[k] = totalGpossubShowAnchor(a)
+				}
+				comps[j] = strings.Join(as, ",")
+			}
+			ligs[i] = strings.Join(comps, "|")
+		}
+		return "5.1 mcov=" + totalGpossubShowCoverage(l.MarkCov) + ";lcov=" + totalGpossubShowCoverage(l.LigCov) +
+			";marks=" + strings.Join(ms, ",") + ";n=" + strconv.Itoa(len(l.LigArray)) + ";lig=" + strings.Join(ligs, "/")
 	case *gtab.Gpos3_1:
 		ss := make([]string, len(l.Records))
 		for i, rec := range l.Records {
@@ -184,7 +203,7 @@ func totalGpossubShowSub(st gtab.Subtable) string {
 }
 
 // totalGpossubOtherKeys: keys of gposReaders whose readers are outside this group.
-var totalGpossubOtherKeys = map[uint16]bool{41: true, 51: true, 61: true, 71: true, 72: true, 73: true, 81: true, 82: true, 83: true, 91: true}
+var totalGpossubOtherKeys = map[uint16]bool{41: true, 61: true, 71: true, 72: true, 73: true, 81: true, 82: true, 83: true, 91: true}
 
 func totalGpossubClass(fn, out string) string {
 	if strings.HasPrefix(out, "ok:") {
@@ -513,6 +532,70 @@ func totalGpossubHeavy(b []byte, pos, tp int) int {
 	return c1
 }
 
+// totalGpossub51 builds a GPOS 5.1 subtable: nMark marks, nLigCov glyphs in the ligature coverage,
+// ligCount LigatureAttach offsets, mcc mark classes, cc(i) components of ligature i.  aliasLA: all
+// LigatureAttach offsets point at the first table; aliasA: all anchor offsets of a table point at
+// its first anchor; zeros: one anchor offset in four is 0.
+func totalGpossub51(r *Rng, nMark, nLigCov, ligCount, mcc int, cc func(i int) int, aliasLA, aliasA, zeros bool) []byte {
+	W, cat := totalGpossubW, totalGpossubCat
+	mcov := totalGpossubCov(r, nMark, r.Range(0, 50))
+	lcov := totalGpossubCov(r, nLigCov, r.Range(60, 200))
+	// mark array
+	mws := []int{nMark}
+	var manch []byte
+	for i := 0; i < nMark; i++ {
+		mws = append(mws, r.Range(0, mcc+1), 2+4*nMark+len(manch))
+		manch = append(manch, totalGpossubAnchor(r, r.Chance(1, 40))...)
+	}
+	ma := cat(W(mws...), manch)
+	// ligature array
+	var tabs []byte
+	offs := make([]int, ligCount)
+	base := 2 + 2*ligCount
+	for i := 0; i < ligCount; i++ {
+		if aliasLA && i > 0 {
+			offs[i] = offs[0]
+			continue
+		}
+		offs[i] = base + len(tabs)
+		n := cc(i) * mcc
+		ws := []int{cc(i)}
+		var anch []byte
+		tb := 2 + 2*n
+		for k := 0; k < n; k++ {
+			switch {
+			case zeros && r.Chance(1, 4):
+				ws = append(ws, 0)
+			case aliasA && len(anch) > 0:
+				ws = append(ws, tb)
+			default:
+				ws = append(ws, tb+len(anch))
+				anch = append(anch, totalGpossubAnchor(r, r.Chance(1, 40))...)
+			}
+		}
+		tabs = append(tabs, cat(W(ws...), anch)...)
+	}
+	la := cat(W(ligCount), W(offs...), tabs)
+	o := 12
+	return cat(W(1, o, o+len(mcov), mcc, o+len(mcov)+len(lcov), o+len(mcov)+len(lcov)+len(ma)), mcov, lcov, ma, la)
+}
+
+// totalGpossub51Cap: one ligature with cc components and mcc classes and `have` offset words of data
+// (cap boundary: cc*mcc = 32764 is read, 32765 is rejected before any offset is read).
+func totalGpossub51Cap(cc, mcc, have, ligCount int) []byte {
+	W, cat := totalGpossubW, totalGpossubCat
+	mcov := W(1, 1, 5)
+	lcov := W(2, 1, 100, 100+ligCount-1, 0)
+	ma := W(1, 0, 6, 1, 7, 8)
+	offs := make([]int, ligCount)
+	for i := range offs {
+		offs[i] = 2 + 2*ligCount
+	}
+	la := cat(W(ligCount), W(offs...), W(cc), make([]byte, 2*have))
+	o := 12
+	return cat(W(1, o, o+len(mcov), mcc, o+len(mcov)+len(lcov), o+len(mcov)+len(lcov)+len(ma)), mcov, lcov, ma, la)
+}
+
 // totalGpossubTab is one structured input of the `read` op.
 type totalGpossubTab struct {
 	name string
@@ -644,6 +727,55 @@ func totalGpossubStructured(r *Rng, thorough bool) []totalGpossubTab {
 		add("31-anchor-self", 3, cat(W(1, 10, 1, 2, 0), W(1, 1, 7))) // entry anchor at offset 2: bytes of the header
 		add("31-count-max-nodata", 3, cat(W(1, 16, 0xffff, 10, 0), W(1, 1, 2), cov3))
 	}
+	// ---- 5.1: ligCount / markClassCount / componentCount in {0..3}^3, offsets 0, aliasing, cap, coverage mismatch
+	for lc := 0; lc <= 3; lc++ {
+		for mcc := 0; mcc <= 3; mcc++ {
+			for cc := 0; cc <= 3; cc++ {
+				cc := cc
+				nm := "51-l" + strconv.Itoa(lc) + "-m" + strconv.Itoa(mcc) + "-c" + strconv.Itoa(cc)
+				add(nm, 5, totalGpossub51(r, r.Range(0, 3), lc, lc, mcc, func(int) int { return cc }, false, false, false))
+				if lc >= 2 && cc*mcc > 0 {
+					add(nm+"-aliasLA", 5, totalGpossub51(r, 2, lc, lc, mcc, func(int) int { return cc }, true, false, false))
+				}
+				if cc*mcc >= 2 {
+					add(nm+"-aliasA", 5, totalGpossub51(r, 2, lc, lc, mcc, func(int) int { return cc }, false, true, false))
+					add(nm+"-zeros", 5, totalGpossub51(r, 2, lc, lc, mcc, func(int) int { return cc }, false, false, true))
+				}
+			}
+		}
+	}
+	for _, d := range [][2]int{{0, 2}, {1, 3}, {3, 1}, {2, 0}, {4, 2}, {2, 5}} { // coverage size vs ligCount, both ways
+		add("51-cov"+strconv.Itoa(d[0])+"-lig"+strconv.Itoa(d[1]), 5,
+			totalGpossub51(r, 2, d[0], d[1], 2, func(i int) int { return 1 + i%2 }, false, false, false))
+	}
+	{ // mark coverage size against markCount, both ways
+		lcov := W(1, 1, 100)
+		la := cat(W(1, 4), W(1, 4), W(1, 9, 9))
+		for _, v := range []struct {
+			name     string
+			mcov, ma []byte
+		}{
+			{"51-markcov3-marks1", W(1, 3, 5, 6, 7), cat(W(1, 0, 6), W(1, 7, 8))},
+			{"51-markcov1-marks3", W(1, 1, 5), cat(W(3, 0, 14, 1, 14, 0, 14), W(1, 7, 8))},
+			{"51-markcov0-marks2", W(1, 0), cat(W(2, 0, 10, 1, 10), W(1, 7, 8))},
+			{"51-markcov2-marks0", W(1, 2, 5, 6), W(0)},
+			{"51-mark-badanchor", W(1, 1, 5), cat(W(1, 0, 6), W(0, 7, 8))},
+		} {
+			o := 12
+			add(v.name, 5, cat(W(1, o, o+len(v.mcov), 1, o+len(v.mcov)+len(lcov), o+len(v.mcov)+len(lcov)+len(v.ma)), v.mcov, lcov, v.ma, la))
+		}
+	}
+	add("51-cap-32764-nodata", 5, totalGpossub51Cap(16382, 2, 3, 1))
+	add("51-cap-32765-nodata", 5, totalGpossub51Cap(6553, 5, 3, 1))
+	add("51-cap-4681x7-32767", 5, totalGpossub51Cap(4681, 7, 3, 1))
+	add("51-cap-65535x1", 5, totalGpossub51Cap(65535, 1, 3, 1))
+	add("51-cap-1x65535", 5, totalGpossub51Cap(1, 65535, 3, 1))
+	add("51-cap-65535x65535", 5, totalGpossub51Cap(65535, 65535, 3, 1))
+	add("51-mcc0-cc65535", 5, totalGpossub51Cap(65535, 0, 0, 1)) // no offsets: 65535 empty rows
+	add("51-mcc0-cc2000-alias3", 5, totalGpossub51Cap(2000, 0, 0, 3))
+	add("51-cc0-mcc65535", 5, totalGpossub51Cap(0, 65535, 0, 2))
+	add("51-cap-full-1500", 5, totalGpossub51Cap(500, 3, 1500, 1)) // all 1500 offsets 0
+	add("51-short-header", 5, totalGpossubW(1, 12, 16, 1, 20))
 	// ---- dispatch: format words, key wrap, keys of other readers, short inputs
 	body := cat(W(6, 1, 7), cov3)
 	for _, tf := range [][2]int{{1, 0}, {1, 3}, {1, 11}, {1, 12}, {1, 21}, {1, 31}, {1, 61}, {1, 81}, {2, 3}, {2, 0}, {2, 11}, {2, 65527},
@@ -707,7 +839,7 @@ func totalGpossubWalk(b []byte) [][2]int {
 				}
 				sp, t = sp+hi<<16+lw, et
 			}
-			if t >= 1 && t <= 3 {
+			if (t >= 1 && t <= 3) || t == 5 {
 				out = append(out, [2]int{sp, t})
 			}
 		}
@@ -767,7 +899,7 @@ func totalGpossubGen(c *Ctx, r *Rng, seeds []totalSeed) {
 	tabs := totalGpossubStructured(r, c.Tier == "thorough")
 	for _, t := range tabs {
 		read("structured", t.b, 0, t.tp, true)
-		if len(t.b) < 600 {
+		if len(t.b) < 600 && !(strings.HasPrefix(t.name, "51-l") && r.Chance(2, 3)) {
 			pb, pp := withPrefix(t.b)
 			read("structured-prefix", pb, pp, t.tp, true)
 		}
@@ -877,7 +1009,12 @@ func totalGpossubGen(c *Ctx, r *Rng, seeds []totalSeed) {
 		var b []byte
 		var tp int
 		var kind string
-		switch r.Intn(9) {
+		switch r.Intn(12) {
+		case 9, 10, 11:
+			lc := r.Range(0, 4)
+			ccs := []int{r.Range(0, 3), r.Range(0, 3), r.Range(0, 3), r.Range(0, 3), r.Range(0, 3), r.Range(0, 3)}
+			b, tp, kind = totalGpossub51(r, r.Range(0, 4), totalGpossubNear(r, lc), lc, r.Range(0, 3),
+				func(i int) int { return ccs[i%6] }, r.Chance(1, 4), r.Chance(1, 4), r.Chance(1, 3)), 5, "51"
 		case 0:
 			b, tp, kind = totalGpossub11(r), 1, "11"
 		case 1, 2:
@@ -937,7 +1074,9 @@ func totalGpossubGen(c *Ctx, r *Rng, seeds []totalSeed) {
 			}
 			b, tp = t.b, t.tp
 		default:
-			switch r.Intn(5) {
+			switch r.Intn(7) {
+			case 5, 6:
+				b, tp = totalGpossub51(r, r.Range(0, 3), 2, 2, r.Range(1, 3), func(i int) int { return 1 + i }, r.Bool(), false, r.Bool()), 5
 			case 0:
 				b, tp = totalGpossub11(r), 1
 			case 1:
@@ -976,7 +1115,9 @@ func totalGpossubGen(c *Ctx, r *Rng, seeds []totalSeed) {
 	for it := 0; !full("read") && it < 400; it++ {
 		var b []byte
 		var tp int
-		switch r.Intn(6) {
+		switch r.Intn(8) {
+		case 6, 7:
+			b, tp = totalGpossub51(r, 1, 1, 1, r.Range(1, 2), func(i int) int { return r.Range(1, 2) }, false, false, false), 5
 		case 0:
 			b, tp = totalGpossub11(r), 1
 		case 1:
@@ -1009,10 +1150,10 @@ func totalGpossubGen(c *Ctx, r *Rng, seeds []totalSeed) {
 	phase(7)
 	for it := 0; !full("read") && it < 20*rem["read"]+100; it++ {
 		b := r.Bytes(r.Range(0, 64))
-		tp := r.Range(1, 3)
+		tp := Pick(r, []int{1, 2, 3, 5})
 		if r.Chance(3, 4) && len(b) >= 2 {
 			b[0], b[1] = 0, byte(r.Range(1, 2))
-			if tp == 3 {
+			if tp == 3 || tp == 5 {
 				b[1] = 1
 			}
 		}
